@@ -255,6 +255,13 @@ protected:
     keep_details_t what_to_keep;
     query_map_t    query_map;
 
+    // The parser recurses once per parenthesis and builds a tree as deep as
+    // the query has terms; both are bounded to keep the stack bounded
+    static const std::size_t MAX_NESTING_DEPTH = 256;
+    static const std::size_t MAX_TERMS         = 2048;
+    std::size_t    nesting_depth;
+    std::size_t    term_count;
+
     expr_t::ptr_op_t parse_query_term(lexer_t::token_t::kind_t tok_context);
     expr_t::ptr_op_t parse_unary_expr(lexer_t::token_t::kind_t tok_context);
     expr_t::ptr_op_t parse_and_expr(lexer_t::token_t::kind_t tok_context);
@@ -267,11 +274,12 @@ protected:
              const keep_details_t& _what_to_keep = keep_details_t(),
              bool                  multiple_args = true)
       : args(_args), lexer(args.begin(), args.end(), multiple_args),
-        what_to_keep(_what_to_keep) {
+        what_to_keep(_what_to_keep), nesting_depth(0), term_count(0) {
       TRACE_CTOR(query_t::parser_t, "value_t, keep_details_t, bool");
     }
     parser_t(const parser_t& other)
-      : args(other.args), lexer(other.lexer) {
+      : args(other.args), lexer(other.lexer),
+        nesting_depth(0), term_count(0) {
       TRACE_CTOR(query_t::parser_t, "copy");
     }
     ~parser_t() throw() {
